@@ -14,7 +14,7 @@ import numpy as np
 from ..bridge import close, ring
 from ..tlc import TLCError
 
-INV = ["AllRowsVisited", "Dimension", "UnitaryForAllParams", "HermitianFlagSound", "HermitianFlagExact", "GroupLaw", "ParamsOnlyWhereDeclared", "FixedRelations", "EmitInv"]
+INV = ["AllRowsVisited", "PolyOfIsTable", "Dimension", "UnitaryForAllParams", "HermitianFlagSound", "HermitianFlagExact", "GroupLaw", "ParamsOnlyWhereDeclared", "FixedRelations", "EmitInv"]
 
 
 def poly_eval(poly, params):
